@@ -94,4 +94,46 @@ MUTANTS = [
     ('C17', 'format-loop-keeps-last', IO + 'dump.py', '        if data:\n            break\n', ''),
     ('C17', 'search-from-offset-1', IO + 'dump.py', 'offset = data_bytes.find(start_bytes)', 'offset = data_bytes.find(start_bytes, 1)'),
     ('C17', 'empty-input-gets-ilog-heading', IO + 'dump.py', '    if not data:\n        return lines\n', ''),
+    # ---- C04
+    ('C04', 'text-printable-bound', P + 'parse_user_data.py', "ord(ch) > ord('~')", "ord(ch) >= ord('~')"),
+    ('C04', 'plugins-off-returns-empty', P + 'parse_user_data.py', """                if self.data:
+                    mv = memoryview(self.data)
+                    d["Data"] = hexdump(mv)
+                return json.dumps(d)
+
+        # Catch""", """                return json.dumps(d)
+
+        # Catch"""),
+    ('C04', 'exception-path-drops-data', P + 'parse_user_data.py', """                              .format(self.creatorID, "0x%04X" % self.compID, "0x%X" % self.subType, self.version, e))
+            if self.data:""", """                              .format(self.creatorID, "0x%04X" % self.compID, "0x%X" % self.subType, self.version, e))
+            if False:"""),
+    ('C04', 'none-guard-removed', P + 'parse_user_data.py', 'if value == None:', 'if False:'),
+    ('C04', 'default-dumps-from-1', P + 'default.py', 'mv = memoryview(self.data)', 'mv = memoryview(self.data)[1:]'),
+    ('C04', 'json-rstrip-before-strip', P + 'parse_user_data.py', "string = bytes.decode(self.data).strip().rstrip('\\x00')", "string = bytes.decode(self.data).rstrip('\\x00')[:-1]"),
+    ('C04', 'text-drops-empty-lines', P + 'parse_user_data.py', """                else:
+                    lines.append(line)
+                    line = ''
+
+            if line""", """                else:
+                    if line:
+                        lines.append(line)
+                    line = ''
+
+            if line"""),
+    ('C04', 'ud-dict-result-under-data', P + 'user_data.py', "if not isinstance(j, dict):\n            out['Data'] = j", "if True:\n            out['Data'] = j"),
+    ('C04', 'ed-payload-includes-reserved', P + 'ext_user_data.py', """        self.reserved2B = stream.get_int(2)
+        self.data = stream.get_mem(dataLength)""", """        self.data = stream.get_mem(dataLength + 2)[:dataLength]"""),
+    # ---- C20
+    ('C20', 'node-attn-swapped', 'modules/pel/hwdiags/parserdata.py', "node_pos  = int(word_b[4:6], base=16)\n        attn_type = int(word_b[6:8], base=16)", "node_pos  = int(word_b[6:8], base=16)\n        attn_type = int(word_b[4:6], base=16)"),
+    ('C20', 'sig-id-not-lowered', 'modules/pel/hwdiags/parserdata.py', "        sig_id  = sig_id.lower()\n", ""),
+    ('C20', 'missing-bit-raises', 'modules/pel/hwdiags/parserdata.py', """            sig_desc = self._data[model_ec]["signatures"][sig_id][1][sig_bit]
+        except KeyError:""", """            sig_desc = self._data[model_ec]["signatures"][sig_id][1][sig_bit]
+        except IndexError:"""),
+    ('C20', 'reg-data-chunk-from-1', 'modules/udparsers/oe500/oe500.py', 'for i in range(0, len(data_buf), data_chunk_len):', 'for i in range(1, len(data_buf), data_chunk_len):'),
+    ('C20', 'chip-pos-read-as-1-byte', 'modules/udparsers/oe500/oe500.py', "chip_pos = stream.get_int(2)\n        node_pos = stream.get_int(1)", "chip_pos = stream.get_int(1)\n        node_pos = stream.get_int(2) & 0xFF"),
+    ('C20', 'src-words-shifted', 'modules/srcparsers/oe500/oe500.py', 'parser.get_signature(word6, word7, word8)', 'parser.get_signature(word7, word8, word9)'),
+    ('C20', 'sig-inst-bit-swapped', 'modules/pel/hwdiags/parserdata.py', "sig_inst  = int(word_c[4:6], base=16)\n        sig_bit   = int(word_c[6:8], base=16)", "sig_inst  = int(word_c[6:8], base=16)\n        sig_bit   = int(word_c[4:6], base=16)"),
+    ('C20', 'scom-value-4-bytes', 'modules/udparsers/oe500/oe500.py', "scomValue = '0x' + stream.get_mem(8).hex()", "scomValue = '0x' + stream.get_mem(4).hex()"),
+    ('C20', 'reg-address-base-10', 'modules/pel/hwdiags/parserdata.py', 'reg_addr = int(reg_addr, base=16)', 'reg_addr = int(reg_addr, base=16) & 0xFFFFFF'),
+    ('C20', 'attn-lookup-by-hex', 'modules/pel/hwdiags/parserdata.py', "attn_type = str(attn_type)", "attn_type = '%x' % attn_type"),
 ]
